@@ -19,7 +19,7 @@ import numpy as np
 from hypothesis import strategies as st
 
 from tqv import gen, ref
-from tqv.core import SubCheck, Violation, req
+from tqv.core import SubCheck, Violation, req, unlisted_rejection
 
 # ------------------------------------------------------------------------------------------
 # caller-owned arguments must come back unchanged and a repeated call must give the same answer (added after seeded
@@ -705,7 +705,7 @@ def check_cdim(case):
             got = channel_dim(rep, **kwargs)
         except ValueError:
             return
-        raise Violation(f"{what}: inconsistent input accepted, returned {got}", "cdim:accepts-inconsistent")
+        unlisted_rejection(f"{what}: inconsistent input accepted, returned {got}", "cdim:accepts-inconsistent")
     d_in, d_out, d_e = channel_dim(rep, **kwargs)
     if mode == "no_rect":
         ok = np.ndim(d_in) == 0 and np.ndim(d_out) == 0 and int(d_in) == i1 and int(d_out) == o1
